@@ -60,7 +60,11 @@ def worker(job):
             if not req.ok:
                 st["agent_err"] = req.err
                 return None
-            k = len(st["ex"])
+            if st.get("drop_at") is not None and len(st["ex"]) == st["drop_at"] and not st.get("dropped"):
+                st["dropped"] = True
+                st["ex"].append((req.oids()[0] if req.oids() else (), "DROPPED"))
+                return None
+            k = len([e for e in st["ex"] if e[1] != "DROPPED"])
             script = st["script"]
             if k < len(script):
                 reply = []
@@ -70,7 +74,7 @@ def worker(job):
             else:
                 reply = [((req.oids() or [BASE])[0], "eomv", 0)]
             st["ex"].append((req.oids()[0] if req.oids() else (), reply))
-            if len(st["ex"]) > len(script) + 3:
+            if len(st["ex"]) > len(script) + 4:
                 return None  # stop feeding a runaway walk: it will time out
             vbs = [B.enc_varbind(o, B.enc_int(s) if kind == "int" else TLV[kind]) for o, kind, s in reply]
             return agent.reply(req, vbs)
@@ -80,10 +84,13 @@ def worker(job):
     drv.call("open")
     for si, (op, script) in enumerate(job["cases"]):
         prog.mark({"cfg": cfg.key(), "case": si})
-        if op == "getbulk" and cfg.version == "v1":
-            op = "getnext"
-        st.update(script=script, ex=[], serial=si * 100)
+        if op.startswith("getbulk") and cfg.version == "v1":
+            op = op.replace("getbulk", "getnext")
+        retry = op.endswith("_retry")
+        st.update(script=script, ex=[], serial=si * 100, drop_at=(1 + si % 2) if retry else None, dropped=False)
         out = drv.call(op, B.oid_text(BASE), limit=60)
+        if retry:
+            op = op[:-6]
         res["walks"] += 1
         n0 = len(st["ex"])
         got = out[1] if out[0] == "ok" else list(drv.partial)
@@ -98,7 +105,7 @@ def worker(job):
         if "agent_err" in st:
             res["inconclusive"].append("agent could not parse a request: %s" % st.pop("agent_err"))
             continue
-        if out[0] == "exc" and out[1]["cls"] == "TimeoutError" and len(st["ex"]) <= len(script) + 1:
+        if out[0] == "exc" and out[1]["cls"] == "TimeoutError" and len(st["ex"]) <= len(script) + 2:
             res["inconclusive"].append("timeout (load) in case %d" % si)
             drv.close()
             drv = driver.Driver(cfg, agent, timeout=0.4).create()
@@ -138,6 +145,11 @@ def main():
     strat = strategies(a.tier, rng)
     cases = [("getnext" if i % 2 else "getbulk", s) for i, s in enumerate(strat)] + \
             [("getbulk" if i % 2 else "getnext", s) for i, s in enumerate(strat) if len(s) > 1 or len(s[0]) <= 2 or a.tier != "quick"]
+    # a lost datagram in the middle of a walk, the caller retries next() on the same iterator (0.4 s timeout each: few)
+    good = [s for s in strat if len(s) >= 2 and all(len(r) >= 1 and all(k == "int" for _, k in r) for r in s[:2])]
+    rng.shuffle(good)
+    for i, s in enumerate(good[:40 if a.tier == "quick" else 600] + [[[(2, "int"), (3, "int")], [(5, "int"), (7, "int")], [(9, "int")]]] * 4):
+        cases.append(("getbulk_retry" if i % 3 else "getnext_retry", s))
     rng.shuffle(cases)
     cfgs = []
     for cl in ("sync", "async"):
